@@ -20,6 +20,8 @@ def main(argv):
     ap.add_argument("--no-selftest", action="store_true")
     ap.add_argument("--show", type=int, default=None, help="print the events of one generated run")
     a = ap.parse_args(argv)
+    import numpy as np
+    np.seterr(all="ignore")
     from simkit import runner
     seed = a.seed
     if seed is None:
